@@ -358,7 +358,7 @@ def run_spec(spec):
             out.update(result="violation", cex=cex, stats=E.stats)
             return out
     out["stats"] = E.stats
-    if out["result"] == "holds":
+    if out["result"] in ("holds", "inconclusive"):
         U.validate_native(E, paths, vs, conc, out, nmax=1)
     return out
 
